@@ -35,6 +35,16 @@ Definition check_line (xs ys : list float) (rm rb : float) : Z :=
   if is_nan m || is_nan b then (if is_nan rm || is_nan rb then 0%Z else 100%Z)
   else if f_close6 m rm && f_close6 b rb then 0%Z else 1%Z.
 
+(* Line1::try_from_points in both argument orders *)
+Definition check_two_points (x0 y0 x1 y1 : float) (r : option (float * float)) : Z :=
+  match @line_two_points FNum x0 y0 x1 y1, r with
+  | Err, None => 0%Z
+  | Ok (m, b), Some (rm, rb) => if f_close6 m rm && f_close6 b rb then 0%Z else 1%Z
+  | _, _ => if abs (abs (x1 - x0) - 0x1.19799812dea11p-40) <? 0x1p-80 then 100%Z else 2%Z
+  end.
+
+Definition both (a b : Z) : Z := if (a =? 0)%Z || (a =? 100)%Z then (if (b =? 0)%Z then a else b) else a.
+
 Definition check_circle3 (p0 p1 p2 : @V2 FNum) (r : option (float * float * float)) : Z :=
   match @circle3 FNum p0 p1 p2, r with
   | Err, None => 0%Z
